@@ -411,6 +411,8 @@ class Session:
     def handle_tls_13_application_record(self, record: TlsRecord, isserver):
         try:
             plaintext = self.decryptor.decrypt(record, isserver)
+            # RFC 8446 5.4: the content type is the last non-zero byte, zero padding may follow it
+            plaintext = plaintext.rstrip(b'\x00')
             subrecord_type = plaintext[-1:]
             if subrecord_type == b'\x16':
                 self.handle_decrypted_tls_13_handshake_record(plaintext[:-1], isserver)
